@@ -215,14 +215,14 @@ class BaseAllFixedSizeElementLocator
     std::size_t element_count_{};
     std::size_t stride_{};
 
-    BaseAllFixedSizeElementLocator() = default;
-
     constexpr BaseAllFixedSizeElementLocator(std::size_t element_count, std::size_t stride) noexcept
         : element_count_(element_count), stride_(stride)
     {
     }
 
   public:
+    BaseAllFixedSizeElementLocator() = default;
+
     constexpr bool empty(const std::byte*) const noexcept { return element_count_ == std::size_t{}; }
 
     static constexpr std::size_t memory_size() noexcept { return {}; }
